@@ -41,6 +41,10 @@ type MutAnalysis struct {
 	// shared backing array (a data race between concurrent readers, and a
 	// corruption of the next reader's input).
 	AppendIsWrite bool
+
+	srcMemo  map[*ssa.Function]map[int]bool
+	srcKnown map[*ssa.Function]bool
+	srcBusy  map[*ssa.Function]bool
 }
 
 // NewMutAnalysis prepares the analysis.
@@ -202,7 +206,8 @@ func (m *MutAnalysis) Mutations(fn *ssa.Function, seeds []ssa.Value, chain []str
 
 	derived := map[ssa.Value]bool{}
 	shallow := map[ssa.Value]bool{}
-	cells := map[ssa.Value]bool{} // local cells holding derived values
+	cells := map[ssa.Value]bool{}        // local cells holding derived values
+	shallowCells := map[ssa.Value]bool{} // local cells holding only fresh containers of derived contents
 	for _, s := range seeds {
 		if !m.exempt(s.Type()) {
 			derived[s] = true
@@ -314,6 +319,9 @@ func (m *MutAnalysis) Mutations(fn *ssa.Function, seeds []ssa.Value, chain []str
 						if shallow[x.X] && refLike(x.Type()) {
 							changed = mark(x, derived) || changed
 						}
+						if shallowCells[rootCell(x.X)] && !cells[rootCell(x.X)] && refLike(x.Type()) {
+							changed = mark(x, shallow) || changed
+						}
 					}
 				case *ssa.Phi:
 					for _, e := range x.Edges {
@@ -333,12 +341,21 @@ func (m *MutAnalysis) Mutations(fn *ssa.Function, seeds []ssa.Value, chain []str
 						changed = mark(x, derived) || changed
 					}
 				case *ssa.Store:
-					// a derived value stored into a local cell makes loads from that cell derived
-					if isD(x.Val) || shallow[x.Val] {
+					// a derived value stored into a local cell makes loads from that cell derived;
+					// a fresh container with derived contents makes them shallow
+					if isD(x.Val) {
 						if _, isAlloc := rootCell(x.Addr).(*ssa.Alloc); isAlloc {
 							if !cells[x.Addr] {
 								cells[x.Addr] = true
 								cells[rootCell(x.Addr)] = true
+								changed = true
+							}
+						}
+					} else if shallow[x.Val] {
+						if _, isAlloc := rootCell(x.Addr).(*ssa.Alloc); isAlloc {
+							if !shallowCells[x.Addr] {
+								shallowCells[x.Addr] = true
+								shallowCells[rootCell(x.Addr)] = true
 								changed = true
 							}
 						}
@@ -392,6 +409,25 @@ func (m *MutAnalysis) Mutations(fn *ssa.Function, seeds []ssa.Value, chain []str
 							if m.returnsFresh(callee) {
 								// fresh container(s); contents may still reference caller memory
 								changed = mark(x, shallow) || changed
+							} else if src, known := m.resultSources(callee); known {
+								// the result's top-level storage comes only from the listed parameters
+								// (e.g. an accumulator slice that is appended to and returned)
+								fromD, fromS := false, false
+								for i, a := range com.Args {
+									if src[i] && isD(a) {
+										fromD = true
+									}
+									if src[i] && shallow[a] {
+										fromS = true
+									}
+								}
+								switch {
+								case fromD:
+									changed = mark(x, derived) || changed
+								default:
+									_ = fromS
+									changed = mark(x, shallow) || changed
+								}
 							} else {
 								changed = mark(x, derived) || changed
 							}
@@ -651,4 +687,118 @@ func (m *MutAnalysis) returnsFresh(fn *ssa.Function) bool {
 		}
 	}
 	return true
+}
+
+
+// resultSources computes, for a module function, the set of parameter
+// indices (receiver = 0) whose storage the results may be (slices of, or
+// appends to).  known is false when a result comes from anything else than
+// parameters, fresh allocations and calls with known sources.  Recursion is
+// solved as a least fixed point.
+func (m *MutAnalysis) resultSources(fn *ssa.Function) (map[int]bool, bool) {
+	if fn == nil || len(fn.Blocks) == 0 {
+		return nil, false
+	}
+	if m.srcMemo == nil {
+		m.srcMemo = map[*ssa.Function]map[int]bool{}
+		m.srcKnown = map[*ssa.Function]bool{}
+		m.srcBusy = map[*ssa.Function]bool{}
+	}
+	if v, ok := m.srcMemo[fn]; ok && !m.srcBusy[fn] {
+		return v, m.srcKnown[fn]
+	}
+	if m.srcBusy[fn] {
+		return m.srcMemo[fn], true // current estimate (optimistic)
+	}
+	m.srcBusy[fn] = true
+	m.srcMemo[fn] = map[int]bool{}
+	known := true
+	paramIdx := map[*ssa.Parameter]int{}
+	for i, p := range fn.Params {
+		paramIdx[p] = i
+	}
+	for iter := 0; iter < 6; iter++ {
+		est := map[int]bool{}
+		for k := range m.srcMemo[fn] {
+			est[k] = true
+		}
+		known = true
+		var walk func(v ssa.Value, seen map[ssa.Value]bool)
+		walk = func(v ssa.Value, seen map[ssa.Value]bool) {
+			if seen[v] {
+				return
+			}
+			seen[v] = true
+			if !refLike(v.Type()) {
+				return
+			}
+			switch x := v.(type) {
+			case *ssa.Const, *ssa.MakeMap, *ssa.MakeSlice, *ssa.Alloc, *ssa.MakeChan, *ssa.MakeClosure:
+			case *ssa.Parameter:
+				est[paramIdx[x]] = true
+			case *ssa.MakeInterface:
+				walk(x.X, seen)
+			case *ssa.ChangeType:
+				walk(x.X, seen)
+			case *ssa.Convert:
+				walk(x.X, seen)
+			case *ssa.Slice:
+				walk(x.X, seen)
+			case *ssa.Phi:
+				for _, e := range x.Edges {
+					walk(e, seen)
+				}
+			case *ssa.Call:
+				com := x.Common()
+				if b, ok := com.Value.(*ssa.Builtin); ok {
+					if b.Name() == "append" {
+						walk(com.Args[0], seen)
+						return
+					}
+					known = false
+					return
+				}
+				c := com.StaticCallee()
+				if c == nil || !m.inModule(c) {
+					if c != nil && (shallowCloners[fullName(c)] || deepFresh[fullName(c)]) {
+						return
+					}
+					known = false
+					return
+				}
+				if m.returnsFresh(c) {
+					return
+				}
+				src, ok := m.resultSources(c)
+				if !ok {
+					known = false
+					return
+				}
+				for i, a := range com.Args {
+					if src[i] {
+						walk(a, seen)
+					}
+				}
+			default:
+				known = false
+			}
+		}
+		for _, b := range fn.Blocks {
+			for _, ins := range b.Instrs {
+				if r, ok := ins.(*ssa.Return); ok {
+					for _, res := range r.Results {
+						walk(res, map[ssa.Value]bool{})
+					}
+				}
+			}
+		}
+		stable := len(est) == len(m.srcMemo[fn])
+		m.srcMemo[fn] = est
+		if stable || !known {
+			break
+		}
+	}
+	m.srcKnown[fn] = known
+	delete(m.srcBusy, fn)
+	return m.srcMemo[fn], known
 }
